@@ -28,6 +28,8 @@ func checkC16(c *Ctx) {
 	ruleNoSharedTransformer(c, "C16.g")
 	c.rule("C16.h", "a stateful transformer declares a Reset that restores every state field", 1)
 	ruleResetRestoresState(c, "C16.h")
+	c.rule("C16.i", "every list-mailbox pattern the server hands on has passed the modified UTF-7 decoder", 1)
+	ruleListMailboxDecoded(c, "C16.i")
 }
 
 // ruleUTF7Chunking: the chunking clauses of both Transform methods (also run
